@@ -288,7 +288,45 @@ def check_passthrough(ctx, m, cfg, rule="R-SIB", pid=None):
                     bad = (k, pname)
                     break
             if bad:
-                ctx.violation(rule, "passthrough:%s:%s:%s" % (caller, callee, bad[1]), "%s passes something other than its own '%s' as argument %d of %s: the request (arrays with their length; origin, k and "
+                # definite only when the forwarded value provably differs from the parameter whenever the call executes: a dominating
+                # `value < parameter` (e.g. the counter of the enclosing loop), or a value of another kind altogether (constant, other parameter).
+                # Anything else (clamped, normalised, recomputed) may or may not preserve the request: not decidable here.
+                definite = isinstance(binding[bad[0]], int)
+                if not definite:
+                    pk = f.arg_index(binding[bad[0]])
+                    av = _strip(f, c.ops[bad[0]])
+                    if av[0] in ("c", "a"):
+                        definite = True
+                    else:
+                        for cmp_ in f.all_insts():
+                            if cmp_.op != "icmp" or cmp_.pred not in ("slt", "ult", "sgt", "ugt"):
+                                continue
+                            a0, a1 = _strip(f, cmp_.ops[0]), _strip(f, cmp_.ops[1])
+                            less = (a0 == av and a1 == ["a", pk] and cmp_.pred in ("slt", "ult")) or (a1 == av and a0 == ["a", pk] and cmp_.pred in ("sgt", "ugt"))
+                            if not less:
+                                continue
+                            t_ = cmp_.block.term
+                            if t_.op != "br" or len(t_.ops) != 3 or t_.ops[0] != ["i", cmp_.id]:
+                                continue
+                            tb_, fb_ = t_.succs()
+                            # the call is only reachable through the true edge of this comparison
+                            seen, todo = set(), [0]
+                            while todo:
+                                x = todo.pop()
+                                if x in seen:
+                                    continue
+                                seen.add(x)
+                                for s_ in f.blocks[x].succs():
+                                    if x == cmp_.block.idx and s_ == tb_ and tb_ != fb_:
+                                        continue
+                                    todo.append(s_)
+                            if c.block.idx not in seen:
+                                definite = True
+                                break
+                if not definite:
+                    ctx.broken(rule, "passthrough %s -> %s: argument %d is not the caller's own '%s' but something recomputed; whether the request is preserved cannot be decided" % (caller, callee, bad[0] + 1, bad[1]))
+                    continue
+                ctx.violation(rule, "passthrough:%s:%s:%s" % (caller, callee, bad[1]), "%s passes a value that is never its own '%s' as argument %d of %s: the request (arrays with their length; origin, k and "
                               "output of a disk) must reach the worker unchanged" % (caller, bad[1], bad[0] + 1, callee), c.where(), inst)
             else:
                 ctx.ok(rule, inst, "the arrays and their element count are forwarded unchanged")
